@@ -657,12 +657,22 @@ impl Stdfs {
                     )?;
                 }
 
+                // Only a regular file can be overwritten, links are not written through, and an
+                // existing file keeps its permissions unless a new mode was asked for
+                let existing = match fs::symlink_metadata(&dst_path) {
+                    Ok(meta) if !meta.is_file() => return Err(PathError::is_not_file(&dst_path).into()),
+                    Ok(meta) => Some(meta.permissions()),
+                    Err(_) => None,
+                };
+
                 // Copy over the file/link
                 fs::copy(src.path(), &dst_path)?;
 
                 // Optionally set new mode
                 if let Some(mode) = file_mode {
                     fs::set_permissions(&dst_path, fs::Permissions::from_mode(mode))?;
+                } else if let Some(perms) = existing {
+                    fs::set_permissions(&dst_path, perms)?;
                 }
             }
         }
